@@ -9,10 +9,12 @@ import (
 )
 
 func updatePoolFromQueue(coreIndex types.CoreIndex, eg types.ReportGuarantee, alpha types.AuthPools) (types.AuthPools, error) {
-	pool := alpha[coreIndex]
-	if pool == nil {
-		return nil, fmt.Errorf("alpha[%d] is nil", coreIndex)
+	if int(coreIndex) >= len(alpha) {
+		return nil, fmt.Errorf("core index %d out of range of alpha (%d pools)", coreIndex, len(alpha))
 	}
+	// A nil slice is the empty pool (it is what the state decoder yields for an
+	// empty pool); removing from it is a no-op, not an error.
+	pool := alpha[coreIndex]
 
 	// (8.3)   remove (g_r)a from α[c]（leftmost match）
 	authHashToRemoved := eg.Report.AuthorizerHash
